@@ -101,6 +101,17 @@ def reachable_bodies(facts, roots, follow_closures=True):
                     nm = c.get(k)
                     if nm and nm in facts.bodies and nm not in seen:
                         work.append(nm)
+                # a trait method resolved to a generic forwarding impl (`<&mut I as Iterator>::next`, `Box<T>`, `Pin<P>` ...)
+                # or left unresolved still reaches the crate's own impl of that trait for a local type named in the call
+                tr = c.get("trait")
+                if tr and not c.get("res_local"):
+                    meth = (c.get("path") or "").split("::")[-1]
+                    full = (c.get("res_full") or "") + " " + (c.get("full") or "")
+                    for f in facts.fns.values():
+                        if f.get("impl_trait") == tr and f["path"].endswith("::" + meth) and f["path"] not in seen:
+                            self_adt = (f.get("impl_self") or "").split("<")[0]
+                            if self_adt and self_adt in full:
+                                work.append(f["path"])
     return seen
 
 
